@@ -869,6 +869,7 @@ def run_V(pid, tier, seed):
                  build_errors=0)
     distinct = set()
     cases = {}
+    tables = {}
     text = []
     for k, mod, rng in module_stream(seed, n, pid):
         stats["programs"] += 1
@@ -887,6 +888,13 @@ def run_V(pid, tier, seed):
             stats["async_runs"] += int(info["is_async"])
             stats["config_reloads"] += int(info["config"] is not None)
             reals.append((r, info))
+        try:
+            import slice_v as _V
+            tdags = _V.build_real(mod, {}, 1, False)
+            realtab = _V.real_table_terms(tdags[-1], mod["args"])
+        except BaseException as e:  # noqa: BLE001
+            realtab = ("BUILD-ERR", type(e).__name__)
+        tables["m%s" % k] = realtab
         cases["m%s" % k] = (mod, oracle, reals)
         text.append(V.proto("m%s" % k, mod))
         distinct.add(json.dumps([mod["defs"], mod["args"]], sort_keys=True, default=repr))
@@ -895,15 +903,39 @@ def run_V(pid, tier, seed):
                                 protocol=text[-1].splitlines()))
     out = common.run_driver("Prog", "".join(text))
     lean = {}
+    lean_tab = {}
     for l in out:
         w = l.split(" ", 2)
         if len(w) >= 3 and w[1] in ("plain", "model"):
             lean.setdefault(w[0], {})[w[1]] = w[2]
+        elif len(w) >= 2 and w[1] in ("node", "ret"):
+            lean_tab.setdefault(w[0], []).append(l)
+    stats["tables_compared"] = 0
+    stats["tables_equal"] = 0
     for mid, (mod, oracle, reals) in cases.items():
         lp, lm = lean.get(mid, {}).get("plain"), lean.get(mid, {}).get("model")
         if lp is None or lm is None:
             raise common.HarnessError("driver gave no answer for " + mid)
         src = [V.def_source(d, mod["defs"], False) for d in mod["defs"]]
+        # slice B: the table the real tracer built vs the table the model traces (canonical terms)
+        rt = tables.get(mid)
+        if pid != "C17" and rt is not None and rt[0] != "BUILD-ERR" and mid in lean_tab:
+            mt = V.model_table_terms(lean_tab[mid])
+            if mt is not None:
+                stats["tables_compared"] += 1
+                topret = mod["defs"][-1]["ret"]
+                const_single = topret["shape"] == "s" and topret["items"][0][1][0] == "c"
+                # a constant returned as the single value is wrapped differently (None -> no return; a container
+                # constant -> a container of holders): same value, only the node terms are compared then
+                same_rets = const_single or list(rt[1]) == list(mt[1])
+                if list(rt[0]) == list(mt[0]) and same_rets:
+                    stats["tables_equal"] += 1
+                else:
+                    only_real = [t for t in rt[0] if t not in mt[0]][:3]
+                    only_model = [t for t in mt[0] if t not in rt[0]][:3]
+                    failures.append(Failure("correspondence", "B-built-table-differs", mod,
+                                            dict(source=src, only_in_real=only_real, only_in_model=only_model,
+                                                 real_returns=rt[1], model_returns=mt[1]), slice_="V"))
         if pid == "C17":
             # flavour equality: the sync and the async build of the same function behave the same
             def canon(r):
